@@ -36,19 +36,15 @@ ASSUMPTIONS = [
     "read_gsd / read_gsd_dcd return None for a wrong ndim and for a DCD companion with another frame or particle count (logged warning in "
     "the source); boxbounds of HOOMD snapshots (min/max of the positions) is not part of the statement and not compared",
     "LAMMPS logs use the classic thermo layout: a header line starting with 'Step ' and a closing line starting with 'Loop time of '; no "
-    "other line starts with these words; noise lines contain no unbalanced double quote; a complete log does not end with a line whose "
-    "first token is a number; a trailing incomplete section (no 'Loop time of' line yet) has its header and at least two rows - what is returned for "
-    "it is not constrained, only that the complete sections before it are returned in full",
+    "other line starts with these words; a complete log does not end with a line whose first token is a number; a trailing incomplete "
+    "section (no 'Loop time of' line yet) may have its header and 0-4 rows - what is returned for it is not constrained, only that the first S "
+    "returned frames are the S complete sections before it; noise between sections includes echoed multi-line / unbalanced quoted commands",
+    "read_gsd_dcd_wrapper is driven with GSD paths that have a directory component ('./x.gsd', 'dir/x.gsd'); the path derivation of the "
+    "wrapper for bare file names is outside the statement",
     "log values are compared with rtol 1e-9 (pandas' fast float parser is not correctly rounded)",
 ]
 
 F32 = np.float32
-
-# Candidate defects reported to the maintainer of the campaign; their inputs are generated only when the flag is set
-# (flip after the corresponding fix commit; see the final report of C19).
-SHORT_INCOMPLETE = False  # trailing incomplete log section with 0 or 1 rows: read_lammpslog raises (nrows = -1 / unequal start,end)
-MULTILINE_QUOTE = False  # log echoing a multi-line quoted command: pandas' skiprows counts parser rows, sections are misplaced
-BARE_GSD_NAME = False  # read_gsd_dcd_wrapper("traj.gsd") looks for "/traj.dcd" (dirname '' + '/')
 
 
 # =========================================================================================== shared
@@ -645,17 +641,12 @@ def run_gsd(case):
         else:
             t, c = fresh(), fresh_dcd()
             runs.append(("read_gsd_dcd", read_gsd_dcd(t, c, d), t, None))
-            for path in ("./c19.gsd", "trajs/run_1.gsd") + (("c19b.gsd",) if BARE_GSD_NAME else ()):
+            for path in ("./c19.gsd", "trajs/run_1.gsd"):
                 reg.gsd.clear()
                 reg.dcd.clear()
                 t = reg.gsd[path] = fresh(path)
                 c = reg.dcd[path[:-3] + "dcd"] = fresh_dcd()
-                try:
-                    runs.append(("read_gsd_dcd_wrapper", read_gsd_dcd_wrapper(path, d), t, c))
-                except FileNotFoundError as e:  # reported, never hidden: the companion is the sibling '<name>.dcd'
-                    transitions += 1
-                    R.fail(f"read_gsd_dcd_wrapper({path!r}) looked for the DCD companion at {e} instead of {path[:-3] + 'dcd'!r}",
-                           sig=dict(hs, clause="dcd_name", path="bare" if "/" not in path else "dir"))
+                runs.append(("read_gsd_dcd_wrapper", read_gsd_dcd_wrapper(path, d), t, c))
             reg.gsd.clear()
             reg.dcd.clear()
             t = reg.gsd["./c19.gsd"] = fresh()
@@ -716,22 +707,23 @@ PREAMBLE = {
             "thermo 100\nrun 300\n",
 }
 TAILS = {"quick": ["end", "noise", "inc2", "inc3cut"], "thorough": ["end", "wall", "noise", "inc2", "inc3cut", "inc4"]}
-NOISE_MID = ["none", "blank", "post", "stepword"]
-if SHORT_INCOMPLETE:
-    TAILS = {k: v + ["inc1", "inc0"] for k, v in TAILS.items()}
-if MULTILINE_QUOTE:
-    io19.NOISE["mlquote"] = 'print """\nhello\nworld\n"""\nhello\nworld\n'
-    NOISE_ALL = NOISE_ALL + ["mlquote"]
+NOISE_MID = ["none", "blank", "text", "warn", "stepword", "post", "mlquote"]
+QUOTE_NOISE = ("mlquote", "unbalq")  # found by this check, fixed in bb39293 (pandas quote handling swallowed newlines)
+SHORT_TAILS = ("inc1", "inc0")  # found by this check, fixed in dafedc2 (negative nrows / unmatched header)
+io19.NOISE["mlquote"] = 'print """\nhello\nworld\n"""\nhello\nworld\n'
+io19.NOISE["unbalq"] = 'variable s string "a b\n'
+NOISE_ALL = NOISE_ALL + list(QUOTE_NOISE)
+TAILS = {k: v + list(SHORT_TAILS) for k, v in TAILS.items()}
 
 
 def log_alphabets(tier):
     """Per-depth event alphabets [level1, level2, level3]; an event = [noise before the section, rows, columns]."""
     if tier == "quick":
         return [[[nz, r, c] for nz in NOISE_ALL for (r, c) in RC_QUICK],
-                [[nz, r, c] for nz in NOISE_MID for (r, c) in RC_QUICK[:3]],
+                [[nz, r, c] for nz in NOISE_CORE for (r, c) in RC_QUICK[:3]],
                 [["none", 1, 2], ["post", 3, 4]]]
     return [[[nz, r, c] for nz in NOISE_ALL for (r, c) in RC_ALL],
-            [[nz, r, c] for nz in NOISE_ALL for (r, c) in RC_QUICK[:3]],
+            [[nz, r, c] for nz in NOISE_MID for (r, c) in RC_QUICK[:3]],
             [["none", 1, 2], ["post", 3, 4], ["blank", 2, 3], ["warn", 3, 2]]]
 
 
@@ -793,33 +785,36 @@ def run_log(case):
             text, secs = log_text(seed, case["pre"], layout, h, tail)
             io19.put("c19.log", text)
             complete = tail in ("end", "wall", "noise")
-            ts = dict(sig, tail="complete" if complete else ("incomplete_short" if tail in ("inc1", "inc0") else "incomplete"))
-            if any(ev[0] == "mlquote" for ev in h):
-                ts["noise"] = "mlquote"
+            ts = dict(sig, tail="complete" if complete else "incomplete")
+            special = "+".join((["multiline_quote"] if any(ev[0] in QUOTE_NOISE for ev in h) else []) + (["short_incomplete"] if tail in SHORT_TAILS else [])) or None
+
+            def sg(generic, **kw):
+                return dict(ts, clause=special, detail=generic, **kw) if special else dict(ts, clause=generic, **kw)
+
             transitions += 1
             try:
                 frames = read_lammpslog("c19.log")
             except Exception as e:  # reported (never hidden): a valid log must not make the reader raise; the search goes on
                 R.fail(f"read_lammpslog raised {type(e).__name__}: {e} on a log with {S} complete sections (tail: {tail})",
-                       sig=dict(ts, clause="exception", exception=type(e).__name__))
+                       sig=sg("exception", exception=type(e).__name__))
                 continue
             if not isinstance(frames, list) or (len(frames) != S if complete else len(frames) < S):
                 R.fail(f"{len(frames) if isinstance(frames, list) else type(frames).__name__} frames returned for a log with {S} complete sections "
-                       f"(tail: {tail})", sig=dict(ts, clause="count"))
+                       f"(tail: {tail})", sig=sg("count"))
                 continue
             for k, (names, rows) in enumerate(secs):
                 df = frames[k]
                 want = np.array(rows, float)
                 if [str(c) for c in df.columns] != names:
-                    R.fail(f"section {k} of {S} (tail: {tail}): column names differ", sig=dict(ts, clause="columns"), exp=names, obs=[str(c) for c in df.columns])
+                    R.fail(f"section {k} of {S} (tail: {tail}): column names differ", sig=sg("columns"), exp=names, obs=[str(c) for c in df.columns])
                     continue
                 if df.shape != want.shape:
                     R.fail(f"section {k} of {S} (tail: {tail}): {df.shape[0]} rows x {df.shape[1]} columns, expected {want.shape}",
-                           sig=dict(ts, clause="rows"), exp=want, obs=df.values.tolist())
+                           sig=sg("rows"), exp=want, obs=df.values.tolist())
                     continue
                 got = np.array([[_num(x) for x in row] for row in df.values.tolist()], float)
                 if not np.isclose(got, want, rtol=1e-9, atol=1e-15).all():
-                    R.fail(f"section {k} of {S} (tail: {tail}): values differ", sig=dict(ts, clause="values"), exp=want, obs=df.values.tolist())
+                    R.fail(f"section {k} of {S} (tail: {tail}): values differ", sig=sg("values"), exp=want, obs=df.values.tolist())
                 R.elem += want.size
             if tail == "end":
                 outs.append([[list(map(str, df.columns)), df.values.tolist()] for df in frames])
@@ -873,9 +868,9 @@ def subs(tier, seed):
                  "wrapper (2 paths, sibling .dcd name), DumpReader; companions with one frame/atom more or less -> None; wrong ndim -> None; DCD closed",
             bounds={"depth": 3 if q else 4, "alphabet": 4}),
         Sub("C19.log", gen_log, run_log,
-            rule="explicit-state search over section-append histories: event = (noise before the section from 9 kinds, rows 1-3, columns 2-4), depth 3 "
-                 "(events per level quick 36/12/2, thorough 81/27/4), preamble x layout combinations 2 (quick) / 4; every state is closed with 4 (quick) / 6 tails "
-                 "(end of file, wall-time line, timing noise, incomplete trailing sections of 2-4 rows) and read back: count, names, every value",
+            rule="explicit-state search over section-append histories: event = (noise before the section from 11 kinds incl. echoed multi-line/unbalanced quotes, rows 1-3, columns 2-4), depth 3 "
+                 "(events per level quick 44/9/2, thorough 99/21/4), preamble x layout combinations 2 (quick) / 4; every state is closed with 6 (quick) / 8 tails "
+                 "(end of file, wall-time line, timing noise, incomplete trailing sections of 0-4 rows) and read back: count, names, every value",
             bounds={"depth": 3}),
     ]
     return s
